@@ -4,7 +4,7 @@ import random
 from harness import common as C
 
 RULE_FILES = ["Rules/RealPrelude.v", "Rules/ScalarRules.v", "Rules/Complex.v", "Containers/VSpace.v",
-              "Containers/VSpaceProof.v", "Array/Broadcast.v", "Array/Run01.v", "Array/MatMul.v", "Array/Index.v", "Array/Select.v", "Array/RunSel.v", "Rules/Stats.v", "Rules/StatsProof.v", "Array/RunStats.v", "Array/Bilinear.v", "Array/BilinearClosed.v", "Array/RunBil.v", "Rules/ComplexRing.v", "Array/RunBilC.v", "Array/Realified.v", "Array/RunReal.v", "Array/LinAlg.v", "Array/RunLin.v"]
+              "Containers/VSpaceProof.v", "Array/Broadcast.v", "Array/Run01.v", "Array/MatMul.v", "Array/Index.v", "Array/Select.v", "Array/RunSel.v", "Rules/Stats.v", "Rules/StatsProof.v", "Array/RunStats.v", "Array/Bilinear.v", "Array/BilinearClosed.v", "Array/RunBil.v", "Rules/ComplexRing.v", "Array/RunBilC.v", "Array/Realified.v", "Array/RunReal.v", "Array/LinAlg.v", "Array/RunLin.v", "Array/BroadcastTie.v", "Array/Multilinear.v", "Array/RunMul.v"]
 IMPORTS = ("From Coq Require Import List ZArith.\nImport ListNotations.\n"
            "From AG Require Import VSpace VSpaceProof Broadcast Run01 MatMul.\nLocal Open Scope Z_scope.\n")
 
@@ -180,6 +180,33 @@ def run_bilinear_complex(res, tag, seed):
     return bad, tie, None
 
 
+def term_mul(c):
+    zl = lambda l: C.clist([C.cz(x) for x in l])  # noqa: E731
+    S = C.clist(["(mkm %s %s %s)" % (C.clist([C.cnat(i) for i in idx]), C.cnat(o), C.cz(k)) for idx, o, k in c["S"]])
+    oj = lambda j: "None" if j is None else "(Some %s)" % zl(j)  # noqa: E731
+    return ("{| u_no := %s; u_S := %s; u_As := %s; u_g := %s; u_dAs := %s; u_val := %s; u_vjps := %s; u_jvps := %s; u_ok := %s |}"
+            % (C.cnat(c["no"]), S, C.clist([zl(a) for a in c["As"]]), zl(c["g"]), C.clist([zl(a) for a in c["dAs"]]), zl(c["val"]),
+               C.clist([zl(v) for v in c["vjps"]]), C.clist([oj(j) for j in c["jvps"]]), C.cbool(c["ok"])))
+
+
+def run_multilinear(res, tag, seed):
+    """multilinear primitives (einsum with three and four operands, chains): structure constants read off NumPy"""
+    out, err = C.run_impl("impl_multilinear.py", {"seed": seed})
+    if out is None:
+        return [], [], err
+    cases = out["cases"]
+    for k, v in out["dist"].items():
+        res.count(k, v)
+    imports = ("From Coq Require Import List ZArith.\nImport ListNotations.\n"
+               "From AG Require Import Multilinear RunMul.\nLocal Open Scope Z_scope.\n")
+    codes = C.coq_eval(tag + "_mul", imports, "", [term_mul(c) for c in cases], "checkmul", shard=8)
+    res.add_cases(len(cases), [("mul", c["prim"], c["tag"]) for c in cases], [{"primitive": c["prim"], "configuration": c["tag"]} for c in cases[:1]])
+    bad = [dict(c, site={"primitive": c["prim"]}, primitive=c["prim"], configuration=c["tag"],
+                what="multilinear primitive: shapes wrong") for c, k in zip(cases, codes) if k == 2]
+    tie = [dict(c, primitive=c["prim"], configuration=c["tag"]) for c, k in zip(cases, codes) if k == 1]
+    return bad, tie, None
+
+
 def term_lin(c):
     ll = lambda m: C.clist([C.clist([C.cz(x) for x in row]) for row in m])  # noqa: E731
     return ("{| l_n := %s; l_p := %s; l_A := %s; l_B := %s; l_b := %s; l_T := %s; l_kind := %s; l_impl := %s; l_ok := %s |}"
@@ -350,6 +377,11 @@ def run(res, tier, seed, broken, props, with_bcast, containers=False):
             bad, tie = bad + b, tie + t
         if err:
             broken = broken + [{"obligation": "complex bilinear correspondence failed to run", "log": err[-3000:]}]
+    if set(props) & {"C01", "C02", "C04", "C05"}:
+        b, t, err = run_multilinear(res, "ml_" + props[0].lower(), seed)
+        bad, tie = bad + b, tie + t
+        if err:
+            broken = broken + [{"obligation": "multilinear correspondence failed to run", "log": err[-3000:]}]
     if set(props) & {"C01", "C04", "C05"}:
         b, t, err = run_linalg(res, "la_" + props[0].lower(), seed, 210 if tier == "thorough" else 70)
         bad, tie = bad + b, tie + t
